@@ -305,30 +305,43 @@ def run(prog: Program, L: Ledger) -> None:
     L.floor("expression trees evaluated", total, 2000)
 
     # ---------------------------------------------------------------- A4
+    # CompositeMove.__call__ evaluated by the checker-owned interpreter on stand-in children with every result vector
+    from itertools import product
+
+    from ..kindinterp import Stub
+
     cm = prog.cls("CompositeMove")
     call = cm.methods.get("__call__")
     if call is None:
         raise AnalysisError("CompositeMove.__call__ missing")
-    rets = [s for s in call.body() if isinstance(s, ast.Return)]
-    ok = False
-    detail = "body is not `return any([move(context) for move in self.moves])`"
-    if len(rets) == 1 and len(call.body()) == 1:
-        v = rets[0].value
-        if isinstance(v, ast.Call) and norm(v.func) == "any" and len(v.args) == 1:
-            a = v.args[0]
-            if isinstance(a, ast.GeneratorExp):
-                detail = "any() over a generator short-circuits: elements after the first success are not called"
-            elif isinstance(a, ast.ListComp) and len(a.generators) == 1 and not a.generators[0].ifs:
-                g = a.generators[0]
-                ctxp = call.params()[1]
-                if norm(g.iter) == "self.moves" and norm(a.elt) == f"{norm(g.target)}({ctxp})":
-                    ok = True
-    else:
-        # loop form: result list built by one call per child then any()
-        src = norm(call.node)
-        if "for " in src and "any(" in src and "break" not in src and "return True" not in src:
-            raise AnalysisError("CompositeMove.__call__: loop form not recognised")
-    L.check(ok, "A4", "CompositeMove.__call__", call.where, detail, "composite of a failing and a succeeding move / two succeeding moves", norm(rets[0].value) if rets else "")
+    bad = None
+    n_runs = 0
+    for k in range(0, 4):
+        for results in product((False, True), repeat=k):
+            log: list = []
+            me = Obj(cm)
+            me.attrs["moves"] = [Stub(f"child{i}", r, log) for i, r in enumerate(results)]
+            ctx = Obj(prog.cls("Context"))
+            it = Interp(prog)
+            try:
+                got = it.call_function(call, [me, ctx], {})
+            except PyRaise as exc:
+                got = f"raises {exc.exc_type}"
+            n_runs += 1
+            names = [c[0] for c in log]
+            args_ok = all(len(c[1]) == 1 and c[1][0] is ctx and not c[2] for c in log)
+            want = any(results)
+            if names != [f"child{i}" for i in range(k)] or not args_ok or not (isinstance(got, bool) and got == want):
+                if bad is None:
+                    bad = (results, names, got, want)
+    detail = ""
+    if bad is not None:
+        results, names, got, want = bad
+        called = ", ".join(names) or "none"
+        detail = (f"children returning {list(results)}: called [{called}] and returned {got!r}; expected every child called once in order with the context and the result {want}"
+                  + (" (any() over a generator short-circuits: elements after the first success are not called)" if len(names) < len(results) else ""))
+    L.check(bad is None, "A4", "CompositeMove.__call__", call.where, detail, "composite of a failing and a succeeding move / two succeeding moves", "call")
+    L.extra["a4_runs"] = n_runs
     # subclasses overriding __call__ are the specialised composites (their guarantees are C05/C11)
 
     # ---------------------------------------------------------------- A5
